@@ -68,6 +68,25 @@ CLAIMED = {
          "go/types+go/ssa faithful; net.Conn implementations honour the interface contract; io.Copy(io.Discard, r) only reads", "DESIGN.md section 4, C03"),
 }
 
+# Rules added after the first version of the table (rounds 2 and 3 of the sub-agent experiments); appended to
+# the level text so that the manifest names what is decided today.
+ADDENDA = {
+ "C01": " Also decided: a well-formed packet (3 <= n <= 1427, length <= n-3) is never rejected by the reader; chopping by a loop-carried offset is recognised; the distributions shared by the reader and writer goroutines are sampled and re-seeded in one critical section each (C12's lock rule, as R9).",
+ "C02": " Also decided: no hash/cipher/buffer object of the handshake code is a package-level variable (shared by concurrent connections).",
+ "C05": " Also decided: no hash/cipher/buffer object of the frame code is a package-level variable.",
+ "C06": " Also decided: the accept side of the packet reader (no well-formed packet rejected, including the header-only packet); the hour the reply and the verification are bound to (C04's hour rules, imported as RH2/RH5).",
+ "C08": " Also decided: no shared (package-level) hash object in common/ntor; append to an input slice and io.Writer.Write of it do not count as modifying the input.",
+ "C10": " Also decided: meek's carry-over buffer is nil or non-empty between calls (the invariant behind panic(\"empty read buffer\"), formerly excluded); the obfs4 leftover flag is cleared whenever the read is skipped (C01.R5/R6 imported as RS5/RS6).",
+ "C12": " Also decided: both worklists of genTables are provably empty when the tables are published and every removed index is settled; csrand.Intn/Float64 are exactly Rand.Intn/Float64 of the package generator built over the CSPRNG source (range by delegation; a hand-rolled conversion is undecided).",
+ "C13": " Also decided: nothing but SetBit modifies the exponent between load and Exp; the handshake receive buffer is written only by the magic scanner with the bytes of its own read; the handshake itself reads its fixed-size fields with io.ReadFull; no shared hash state.",
+ "C14": " Also decided: mac()/kdf use call-local hash objects (no package-level hash shared by concurrent handshakes).",
+ "C15": " Also decided (rules shared with obfs4): the bytes that follow the server response are kept (Next(n)) and are parsed before the data phase blocks on the network again (defect F8 was found here and fixed); Read never replaces a pending fatal error by the decoded buffer's result; serialize reports success only through the file write; no shared hash state.",
+ "C16": " Also decided: the carry-over buffer of Read is nil or non-empty between calls (every store, every consuming site).",
+ "C18": " Also decided: every field of the persisted state that the load path reads is filled in by both writers (generation and explicit arguments); the identity key is derived by plain base-point multiplication at generation and at reload (NewKeypair(false) / KeypairFromHex).",
+ "C19": " io.CopyBuffer counts as io.Copy only with a staging buffer allocated by the copier goroutine itself.",
+ "C20": " Also decided: the scrubbing switch is written only by log.Init, with its own argument, on every successful path.",
+}
+
 NOT_YET = "only the structural clauses named in DESIGN.md are statically decidable and their rules are not implemented yet"
 
 def main():
@@ -84,7 +103,7 @@ def main():
                 "evidence_file": f"/verif/evidence/{pid}.json",
                 "replay_cmd_template": "./run.sh -replay {path}",
                 "engine": "obfsvet",
-                "level_claimed": {"category": "other", "text": text, "design_ref": ref},
+                "level_claimed": {"category": "other", "text": text + ADDENDA.get(pid, ""), "design_ref": ref},
                 "level_note": note,
                 "technique": "static analysis: " + tech,
             })
